@@ -30,7 +30,7 @@ ANCHORS = []
 WORKERS = {"quick": 12, "thorough": 16}
 WATCHDOG = {"quick": 1200, "thorough": 3400}
 REQUIRED = {"pair:A-has-resonance-B-lacks": 5, "pair:A-cartesian-B-not": 3, "pair:crossing-reader-classes": 5, "hash-seeds>=2": 1, "exact-reproducibility-run": 2,
-            "history-length>=3": 2, "same-long-file-through-two-reader-classes-back-to-back": 2, "printing-conversion-after-a-failed-returning-one": 2, "failed-cartesian-read-then-polar-file": 5, "printing-conversion-with-colours-after-a-returning-one": 2, "text-argument-read-after-another-read": 2, "same-amplitudes-under-two-event-orders-in-one-process": 2, "file-converted-again-after-another": 2, "same-bare-resonance-name-different-sub-lines": 2, "fresh-single-runs": 10, **{f"entry:{e}": 3 for e in ENTRIES}, "across-hash-seeds-compared": 3, "all-ordered-file-pairs": 1}
+            "history-length>=3": 2, "same-long-file-through-two-reader-classes-back-to-back": 2, "printing-conversion-after-a-failed-returning-one": 2, "failed-cartesian-read-then-polar-file": 5, "event-type-with-a-special-table-particle-read-after-another-file": 2, "printing-conversion-with-colours-after-a-returning-one": 2, "text-argument-read-after-another-read": 2, "same-amplitudes-under-two-event-orders-in-one-process": 2, "file-converted-again-after-another": 2, "same-bare-resonance-name-different-sub-lines": 2, "fresh-single-runs": 10, **{f"entry:{e}": 3 for e in ENTRIES}, "across-hash-seeds-compared": 3, "all-ordered-file-pairs": 1}
 EXHAUSTIVE_NOTE = "all 36 ordered pairs of pool files are run in every tier (entry points rotated over the 25 ordered entry pairs); all ordered triples of 3 files in thorough"
 ASSUMPTIONS = ["inside the fresh interpreters the pure name lookup is memoised per (name, particle-table size); the library's one-time loading of the special particles happens inside each history",
                "the parent cannot instrument the child interpreters with sys.monitoring: anchors are not traced for this property (results are observed at the process boundary)"]
@@ -73,6 +73,10 @@ def resonance_names(model):
 
 
 REARRANGED = N_POOL + 1
+SPECIAL = N_POOL + 2   # index of the pool file whose event type names a particle of the library's own table of special (Mint / Dalitz) particles
+SPECIAL_TEXT = ("\nEventType K(1460)+ K+ pi+ pi-\n"
+                "K(1460)+{K*(892)0{K+,pi-},pi+}  0 0.196037 0.0012135 0 -0.390311 0.00629977\n"
+                "K(1460)+{rho(770)0{pi+,pi-},K+}  2 1.0 0.0 2 0.0 0.0\n")
 POISON = N_POOL     # index of the pool file that cannot be read to the end (cartesian option on, unknown resonance further down)
 
 
@@ -92,6 +96,10 @@ def write_pool(workdir):
     with open(os.path.join(workdir, f"pool{REARRANGED}.txt"), "w", encoding="utf-8") as f:
         f.write(A.render(twin, random.Random(0), style={"crlf": False, "indent": False, "comments": True, "blank": True}))
     models.append(twin)
+    # pool file 8: the decaying particle of the event type is one the library takes from its special-particle table (another mass and width than the PDG table)
+    with open(os.path.join(workdir, f"pool{SPECIAL}.txt"), "w", encoding="utf-8") as f:
+        f.write(SPECIAL_TEXT)
+    models.append({"event": ["K(1460)+", "K+", "pi+", "pi-"], "lines": [], "params": [], "consts": [], "cartesian": None, "extras": []})
     return models
 
 
@@ -219,6 +227,8 @@ class Runner:
             ctx.hit("printing-conversion-after-a-failed-returning-one")
         if hist[0][0] == POISON and len(hist) >= 2:
             ctx.hit("failed-cartesian-read-then-polar-file")
+        if SPECIAL in files[1:] and files[0] != SPECIAL:
+            ctx.hit("event-type-with-a-special-table-particle-read-after-another-file")
         dn = [f for f, _ in hist if f in (0, 5)]
         if len(set(dn)) == 2:
             ctx.hit("same-bare-resonance-name-different-sub-lines")
@@ -312,6 +322,10 @@ def run(ctx):
         jobs.append(([[POISON, "cpp"], [0, "cpp_print"]], 0, "printed-after-failed-returning"))
         jobs.append(([[POISON, "py"], [1, "py_print"], [2, "cpp_print"]], 0, "printed-after-failed-returning"))
         jobs.append(([[2, "py"], [3, "py_print"], [4, "cpp_print"]], 0, "printed-after-returned"))
+        # an event type whose decaying particle comes from the library's special-particle table: first read of a process vs after another read
+        jobs.append(([[0, "read"], [SPECIAL, "read"], [SPECIAL, "read_cpp"]], 0, "special-table-event-type"))
+        jobs.append(([[1, "read_py"], [SPECIAL, "read_cpp"]], 1, "special-table-event-type"))
+        jobs.append(([[SPECIAL, "read_py"], [2, "cpp"], [SPECIAL, "read"]], 0, "special-table-event-type"))
         for e in (["py", "cpp"] if ctx.quick else ENTRIES):
             jobs.append(([[3, e], [1, e]], 0, "spline-then-no-constants"))      # file 3 has spline constants, file 1 has no constant line at all
         if not ctx.quick:
